@@ -557,6 +557,21 @@ func Client(ctx context.Context, st *stream.Stream, o ClientOpts) (rec *Record) 
 			rec.step("%s completed (scripted)", name)
 			goto keyAgreement
 		}
+		if sel == 0 && o.Dev.ClientBitmask != 0 {
+			// nothing in common with the mask that was sent: the puppet gives up (mask 0) and looks at
+			// what the server does - an honest server ends the handshake; one that goes on to the key
+			// exchange has "completed" an authentication that never ran
+			gm := message.NewMessageForStream(st)
+			_ = gm.PutInt(ctx, 0)
+			_ = gm.FinishMessage(ctx)
+			km := message.NewMessageFromStream(st)
+			if _, err := km.GetInt(ctx); err != nil {
+				rec.Err = fmt.Errorf("server selected nothing and ended the handshake: %w", err)
+				return
+			}
+			rec.step("server selected nothing and went on to the key exchange")
+			goto keyAgreement
+		}
 		if sel != BitClaimToBe {
 			rec.Err = fmt.Errorf("server selected %#x; puppet only speaks CLAIMTOBE", sel)
 			return
